@@ -37,7 +37,7 @@ Qed.
 (* the common fragment: prefix / suffix only *)
 Definition frag_dirs (d : pdirs) : Prop :=
   pd_ns d = "" /\ pd_labels d = [] /\ pd_common_labels d = [] /\ pd_common_annos d = [] /\
-  pd_cmgens d = [] /\ pd_secgens d = [] /\ pd_genopts d = None /\
+  pd_cmgens d = [] /\ pd_secgens d = [] /\ pd_genopts d = None /\ (pd_replicas d = [] /\ pd_images d = []) /\
   no_char ","%char (pd_prefix d) = true /\ no_char ","%char (pd_suffix d) = true.
 
 Inductive frag : ptree -> Prop :=
@@ -207,13 +207,15 @@ Section Bridge.
     else if String.eqb k "SuffixTransformer" then suffix_transform cs gen_name_suffix_fs gen_suffix_skip (pd_suffix d) m
     else Ok m.
   Proof.
-    intros (Hns & Hl & Hcl & Hca & _). unfold run_kind, label_dirs. rewrite Hns, Hl, Hcl, Hca.
+    intros (Hns & Hl & Hcl & Hca & _ & _ & _ & [Hrp Him] & _). unfold run_kind, label_dirs. rewrite Hns, Hl, Hcl, Hca, Hrp, Him.
     destruct (String.eqb k "NamespaceTransformer") eqn:E1.
     { apply String.eqb_eq in E1. subst k. reflexivity. }
     destruct (String.eqb k "PrefixTransformer"); [reflexivity|].
     destruct (String.eqb k "SuffixTransformer"); [reflexivity|].
     destruct (String.eqb k "LabelTransformer"); [reflexivity|].
-    destruct (String.eqb k "AnnotationsTransformer"); reflexivity.
+    destruct (String.eqb k "AnnotationsTransformer"); [reflexivity|].
+    destruct (String.eqb k "ReplicaCountTransformer"); [reflexivity|].
+    destruct (String.eqb k "ImageTagTransformer"); reflexivity.
   Qed.
 
   Lemma run_transformers_frag d m cm :
@@ -222,7 +224,7 @@ Section Bridge.
       Forall2 Rel m' (Compose.run_transformers FieldSpecs.gen_name_prefix_fs FieldSpecs.gen_name_suffix_fs
                         LegacyOrder.gen_prefix_skip LegacyOrder.gen_suffix_skip (pd_prefix d) (pd_suffix d) cm).
   Proof.
-    intros Hd HW HR. pose proof Hd as (Hns & Hl & Hcl & Hca & _ & _ & _ & Hp & Hs).
+    intros Hd HW HR. pose proof Hd as (Hns & Hl & Hcl & Hca & _ & _ & _ & _ & Hp & Hs).
     destruct (prefix_sim _ _ _ Hp HW HR) as (m1 & E1 & W1 & R1).
     destruct (suffix_sim _ _ _ Hs W1 R1) as (m2 & E2 & W2 & R2).
     exists m2. split; [|split; [exact W2|exact R2]].
@@ -244,8 +246,8 @@ Section Bridge.
   Lemma frag_empty d (ents : list ptree) :
     frag_dirs d -> is_empty_kust d ents = Compose.is_empty_kust (Compose.Dir (map proj ents) (pd_prefix d) (pd_suffix d)).
   Proof.
-    intros (Hns & Hl & Hcl & Hca & Hc & Hs & Hg & _). destruct ents; [|reflexivity].
-    unfold is_empty_kust, dirs_empty. rewrite Hns, Hl, Hcl, Hca, Hc, Hs, Hg. cbn. rewrite !andb_true_r. reflexivity.
+    intros (Hns & Hl & Hcl & Hca & Hc & Hs & Hg & [Hrp Him] & _). destruct ents; [|reflexivity].
+    unfold is_empty_kust, dirs_empty. rewrite Hns, Hl, Hcl, Hca, Hc, Hs, Hg, Hrp, Him. cbn. rewrite !andb_true_r. reflexivity.
   Qed.
 
   Definition acc_sim (m : list resource) (c : list Compose.resource) : Prop := Forall W m /\ Forall2 Rel m c.
